@@ -119,11 +119,24 @@ def build(tier, work, builder):
     jobs.append(F.Job("c13_check_type", "h_c13_check_type", [ctobj, hct], timeout=600, unwind=8, level="bounded",
                       functions=["TypeChecker::checkType (whole function, real recursion)", "type_t::get_array_size / get_range / get / get_kind / is (real)"],
                       bound_note="eight concrete type shapes: 1-3 array dimensions, typedef label, const / meta / reference prefix, record field (depth <= 4)"))
+    # ---- lemma shared with C11: function_t::depends is complete.  A call is compile-time computable when everything the
+    # callee may read is; what the callee may read is function_t::depends, computed by the statement visitors of
+    # statement.cpp over the body and the tail of TypeChecker::visitFunction - the C11 jobs, run here as lemmas of C13.
+    from checks import C11
+    w11 = os.path.join(work, "c11"); os.makedirs(w11, exist_ok=True)
+    b11 = C11.build(tier, w11, builder)
+    lemma = [j for j in b11["jobs"] if j.name.startswith("c11_stmt_") or j.name in ("c11_collect_dependencies", "c11_visit_function", "c11_collect_reads")]
+    if len(lemma) < 14:
+        raise X.ExtractionBroken("C13: the statement-visitor jobs of C11 are missing")
+    for j in lemma:
+        j.name = "c13_depends_" + j.name[len("c11_"):]
+        j.note = (j.note + "; " if j.note else "") + "lemma of C13: function_t::depends (what a call may read) is complete (contracts/C11)"
+        jobs.append(j)
     return {
-        "jobs": jobs, "slices": [s.info() for s in slices],
+        "jobs": jobs, "slices": [s.info() for s in slices] + [d for d in b11["slices"] if "statement.cpp" in str(d.get("file", "")) or "Visitor" in str(d.get("name", "")) or "visitFunction" in str(d.get("name", ""))],
         "drops": ["isDefaultInt's body (arbitrary result)"],
         "trusted_base": ["CBMC 6.11 C++ front end + SAT", "flat type abstraction", "bit-mask std::set<symbol_t>", "stubs/tc_env.h",
-                         "collect_possible_reads answered by its contract (one-level proof in C11: c11_collect_reads)"],
+                         "collect_possible_reads answered by its contract (its one-level proof, c11_collect_reads, is run here as c13_depends_collect_reads)"],
         "assumptions": ["the builder-side computation of template_t::restricted (StatementBuilder::collectDependencies) is under a bounded check only (4 symbols)",
                         "checkType reaching the RANGE case of every array size / range bound of a declared type is under a BOUNDED check only (c13_check_type: eight type shapes, real recursion)"],
         "explanation": "",
